@@ -3,7 +3,7 @@
    and by take_output, and under it no step of the model can reach a Panic outcome - for ALL
    back-end answers within their size contract (answer_ok + 4 GiB bound). *)
 From Coq Require Import NArith ZArith List Bool Lia.
-From V Require Import lib.Words model.Stream proofs.Stream_proofs.
+From V Require Import lib.Words model.Stream proofs.Stream_proofs proofs.Dist_proofs.
 Import ListNotations.
 Open Scope N_scope.
 
@@ -43,12 +43,12 @@ Proof. revert v. induction n as [|n IH]; intros v; cbn [le_bytes]; [reflexivity|
 Ltac fs := cbn [quality lgwin lgblock large_window catable appendable magic size_hint initialized sstate_ rem_meta
                 input_pos last_flush_pos last_processed_pos last_bytes last_bytes_bits next_out storage storage_size
                 tiny avail_out_ total_out_ last_emitted oracle
-                upd_params upd_core upd_pos upd_bits upd_out upd_misc set_sstate set_hint set_magic
+                first_pending set_first_pending upd_params upd_core upd_pos upd_bits upd_out upd_misc set_sstate set_hint set_magic
                 avail_in in_off cap produced total_arg io_push io_consume].
 Ltac fs_in H := cbn [quality lgwin lgblock large_window catable appendable magic size_hint initialized sstate_ rem_meta
                 input_pos last_flush_pos last_processed_pos last_bytes last_bytes_bits next_out storage storage_size
                 tiny avail_out_ total_out_ last_emitted oracle
-                upd_params upd_core upd_pos upd_bits upd_out upd_misc set_sstate set_hint set_magic
+                first_pending set_first_pending upd_params upd_core upd_pos upd_bits upd_out upd_misc set_sstate set_hint set_magic
                 avail_in in_off cap produced total_arg io_push io_consume] in H.
 
 (* ---- the invariant ---- *)
@@ -376,4 +376,204 @@ Proof.
            ++ destruct ((avail_in x =? block) && opk_eqb op OpFlush), ((avail_in x =? block) && opk_eqb op OpFinish); fs; exact Hok1.
     + split; [apply check_flush_inv; exact Hi|].
       unfold check_flush_complete. destruct (sstate_eqb (sstate_ s) SFlushRequested && (avail_out_ s =? 0)); exact Hok.
+Qed.
+
+(* ---- metadata ---- *)
+From V Require Import spec.MetaHeader proofs.MetaHeader_proofs.
+
+Lemma header_len_le lb lbb n : lbb < 16 -> n <= 2 ^ 24 ->
+  (snd (metadata_header_bits lb lbb n) + 7) / 8 <= 16.
+Proof.
+  intros Hl Hn. unfold metadata_header_bits.
+  destruct (n =? 0) eqn:E0.
+  - cbn [snd]. apply N.div_le_upper_bound; lia.
+  - cbn [snd]. apply N.eqb_neq in E0.
+    assert (Hk : nbytes_of n <= 3).
+    { destruct (nbytes_of_class n ltac:(lia) Hn) as [[_ H]|[[_ [_ H]]|[_ H]]]; rewrite H; lia. }
+    unfold nbytes_of in Hk. cbv zeta in Hk.
+    remember ((if n =? 1 then 1 else log2_floor_nonzero (w32 (n - 1)) + 1) + 7) as e.
+    apply N.div_le_upper_bound; [lia|].
+    remember (e / 8) as k. lia.
+Qed.
+
+Definition meta_rel (payload : list N) (s : st) (x : io) : Prop :=
+  in_off x + rem_meta s <= lenN payload /\ rem_meta s <= 2 ^ 24
+  /\ (sstate_ s = SMetaHead \/ sstate_ s = SMetaBody).
+
+Lemma meta_loop_np payload : forall fuel s x,
+  inv s -> all_ok2 (oracle s) -> meta_rel payload s x -> outcome_ok (meta_loop fuel payload s x).
+Proof.
+  induction fuel as [|f IH]; intros s x Hi Hok [Hm1 [Hm2 Hm3]]; [exact I|].
+  cbn [meta_loop].
+  destruct (inject_inv s x Hi) as [[s1 [x1 [E Hi1]]]|E]; rewrite E.
+  - destruct (inject_some s x s1 x1 E) as [A [_ [_ [D [_ _]]]]].
+    apply IH; [exact Hi1|rewrite D; exact Hok|].
+    (* pushing does not touch rem_meta or in_off *)
+    unfold inject_flush_or_push_output in E.
+    destruct (sstate_eqb (sstate_ s) SFlushRequested && negb (last_bytes_bits s =? 0)) eqn:Cf.
+    + exfalso. apply andb_true_iff in Cf. destruct Cf as [Cf _]. apply sstate_eqb_spec in Cf.
+      destruct Hm3 as [H|H]; rewrite H in Cf; discriminate.
+    + destruct (negb (avail_out_ s =? 0) && negb (cap x =? 0)); try discriminate.
+      destruct (lenN (view s) <? N.min (avail_out_ s) (cap x)); try discriminate.
+      inversion E; subst s1 x1. unfold meta_rel. fs. repeat split; assumption.
+  - destruct (negb (avail_out_ s =? 0)) eqn:Cao; [split; assumption|].
+    apply negb_false_iff in Cao. apply N.eqb_eq in Cao.
+    destruct (negb (input_pos s =? last_flush_pos s) || (magic s && first_pending s)).
+    + destruct (encode_data s false true) as [[r s2]|w|w|] eqn:Eenc; try exact I.
+      * destruct (encode_data_inv _ _ _ _ _ Hi Cao Hok Eenc) as [Hi2 [Hok2 [Hst2 Hroom]]].
+        destruct r; [|split; assumption].
+        apply IH; [exact Hi2|exact Hok2|].
+        assert (Hr : rem_meta s2 = rem_meta s).
+        { unfold encode_data in Eenc. destruct (oracle s); [discriminate|].
+          repeat match type of Eenc with (if ?c then _ else _) = _ => destruct c; try discriminate end;
+          inversion Eenc; reflexivity. }
+        unfold meta_rel. rewrite Hr, Hst2. repeat split; assumption.
+      * unfold encode_data in Eenc. destruct (oracle s); [discriminate|].
+        repeat match type of Eenc with (if ?c then _ else _) = _ => destruct c; try discriminate end.
+    + destruct (sstate_eqb (sstate_ s) SMetaHead).
+      * (* header into the tiny buffer *)
+        pose proof (header_len_le (last_bytes s) (last_bytes_bits s) (rem_meta s) ltac:(destruct Hi as [_ [_ [_ Hl]]]; exact Hl) Hm2) as Hlen.
+        assert (Hh : inv (set_sstate (write_metadata_header s) SMetaBody)
+                     /\ oracle (set_sstate (write_metadata_header s) SMetaBody) = oracle s
+                     /\ rem_meta (set_sstate (write_metadata_header s) SMetaBody) = rem_meta s
+                     /\ sstate_ (set_sstate (write_metadata_header s) SMetaBody) = SMetaBody).
+        { destruct Hi as [Hc [Hp [Ht Hl]]]. unfold write_metadata_header.
+          destruct (metadata_header_bits (last_bytes s) (last_bytes_bits s) (rem_meta s)) as [v nb]. cbn [snd] in Hlen.
+          split; [|repeat split; reflexivity].
+          unfold inv, cursor_ok, pad_ok. fs. rewrite lenN_le_bytes.
+          split; [lia|]. split; [intros H; discriminate H|]. split; lia. }
+        destruct Hh as [Hih [Hoh [Hrh Hsh]]].
+        apply IH; [exact Hih|rewrite Hoh; exact Hok|].
+        unfold meta_rel. rewrite Hrh, Hsh. repeat split; try assumption. right; reflexivity.
+      * destruct (rem_meta s =? 0).
+        -- split; [|exact Hok]. destruct Hi as [Hc [Hp [Ht Hl]]]. unfold inv, cursor_ok, pad_ok in *. fs.
+           split; [exact Hc|]. split; [intros H; discriminate H|split; assumption].
+        -- assert (Hnf : sstate_ s <> SFlushRequested) by (destruct Hm3 as [H|H]; rewrite H; discriminate).
+           destruct (negb (cap x =? 0)).
+           ++ (* payload straight into the caller's buffer *)
+              remember (N.min (rem_meta s) (cap x)) as c eqn:Ec.
+              assert (Hcle : c <= rem_meta s) by (subst c; apply N.le_min_l).
+              destruct (N.ltb_spec (lenN (skipN (in_off x) payload)) c) as [Hbad|_]; [rewrite lenN_skipN in Hbad; lia|].
+              apply IH; [|exact Hok|].
+              ** destruct Hi as [Hc [Hp [Ht Hl]]]. unfold inv, cursor_ok, pad_ok in *. fs.
+                 split; [exact Hc|]. split; [exact Hp|split; assumption].
+              ** unfold meta_rel. fs. rewrite (wsub32_small (rem_meta s) c) by (try assumption; change (2 ^ 32) with 4294967296; change (2 ^ 24) with 16777216 in Hm2; lia).
+                 repeat split; try lia. exact Hm3.
+           ++ (* payload through the tiny buffer *)
+              remember (N.min (rem_meta s) 16) as c eqn:Ec.
+              assert (Hcle : c <= rem_meta s) by (subst c; apply N.le_min_l).
+              assert (Hc16 : c <= 16) by (subst c; apply N.le_min_r).
+              destruct (N.ltb_spec (lenN (skipN (in_off x) payload)) c) as [Hbad|Hgood]; [rewrite lenN_skipN in Hbad; lia|].
+              apply IH; [|exact Hok|].
+              ** destruct Hi as [Hc [Hp [Ht Hl]]]. unfold inv, cursor_ok, pad_ok in *. fs.
+                 destruct (lenN_write_list (takeN c (skipN (in_off x) payload)) (tiny s) 0) as [W1 _].
+                 split; [lia|]. split; [|split; [lia|assumption]].
+                 intros H1. contradiction.
+              ** unfold meta_rel. fs. rewrite (wsub32_small (rem_meta s) c) by (try assumption; change (2 ^ 32) with 4294967296; change (2 ^ 24) with 16777216 in Hm2; lia).
+                 repeat split; try lia. exact Hm3.
+Qed.
+
+(* ---- the API calls ---- *)
+Definition meta_ok (s : st) : Prop :=
+  (sstate_ s = SMetaHead \/ sstate_ s = SMetaBody) -> rem_meta s <= 2 ^ 24.
+
+(* an encoder that has only seen set_parameter calls *)
+Definition fresh (s : st) : Prop :=
+  sstate_ s = SProcessing /\ avail_out_ s = 0 /\ next_out s = NoNone /\ 16 <= lenN (tiny s).
+
+Lemma fresh_init : fresh init_st.
+Proof. unfold fresh. cbn. repeat split; lia. Qed.
+
+Lemma fresh_set_parameter s id v : fresh s -> fresh (snd (set_parameter s id v)).
+Proof.
+  intros H. unfold set_parameter.
+  repeat match goal with |- context [if ?c then _ else _] => destruct c end; cbn [snd]; try exact H;
+    destruct H as [A [B [C D]]]; unfold fresh; fs; repeat split; assumption.
+Qed.
+
+Lemma fresh_inv s : fresh s -> initialized s = false ->
+  inv (ensure_initialized s) /\ meta_ok (ensure_initialized s) /\ oracle (ensure_initialized s) = oracle s.
+Proof.
+  intros [A [B [C D]]] Ei. unfold ensure_initialized. rewrite Ei.
+  assert (Hb : forall w lw, snd (encode_window_bits w lw) < 16).
+  { intros w lw. unfold encode_window_bits. destruct lw; [cbn; lia|].
+    destruct (w =? 16)%Z; [cbn; lia|]. destruct (w =? 17)%Z; [cbn; lia|]. destruct (17 <? w)%Z; cbn; lia. }
+  match goal with |- context [encode_window_bits ?w ?lw] => specialize (Hb w lw); destruct (encode_window_bits w lw) as [lb lbb] end.
+  cbn [snd] in Hb. split; [|split; [|reflexivity]].
+  - unfold inv, cursor_ok, pad_ok. fs. rewrite C. split; [exact B|].
+    split; [intros H; rewrite A in H; discriminate H|]. split; assumption.
+  - unfold meta_ok. fs. intros [H|H]; rewrite A in H; discriminate H.
+Qed.
+
+Definition call_ok (o : outcome (bool * st * io)) : Prop :=
+  match o with Panic _ => False | Done (_, s', _) => inv s' | _ => True end.
+
+Lemma outcome_ok_call_ok o : outcome_ok o -> call_ok o.
+Proof. destruct o as [[[r s'] x']| | |]; cbn; tauto. Qed.
+
+(* every stream call from a state satisfying the invariant: no Panic, invariant re-established *)
+Theorem stream_call_no_panic t0 s op payload offered capn :
+  initialized s = true -> inv s -> meta_ok s -> all_ok2 (oracle s) ->
+  (op = OpMeta -> offered <= lenN payload /\ offered < 2 ^ 32) ->
+  call_ok (compress_stream_from t0 s op payload offered capn).
+Proof.
+  intros Hini Hi Hm Hok Hpay. unfold compress_stream_from. rewrite (ensure_initialized_id s Hini).
+  set (x := {| avail_in := offered; in_off := 0; cap := capn; produced := []; total_arg := t0 |}).
+  destruct (negb (rem_meta s =? U32MAX) && (negb (offered =? rem_meta s) || negb (opk_eqb op OpMeta))) eqn:Cg; [exact Hi|].
+  destruct (opk_eqb op OpMeta) eqn:Eop.
+  - assert (Hop : op = OpMeta) by (destruct op; try discriminate; reflexivity).
+    destruct (Hpay Hop) as [Hp1 Hp2].
+    unfold process_metadata. fold x.
+    assert (Hih : inv (update_size_hint s 0)) by (apply inv_size_hint; exact Hi).
+    destruct (update_size_hint_fields s 0) as [U1 [U2 [U3 [U4 [U5 U6]]]]].
+    assert (Ur : rem_meta (update_size_hint s 0) = rem_meta s) by (unfold update_size_hint; destruct (size_hint s =? 0); reflexivity).
+    cbn [avail_in x].
+    destruct (N.ltb_spec (2 ^ 24) offered) as [Hbig|Hsmall]; [exact Hih|].
+    destruct (sstate_eqb (sstate_ (update_size_hint s 0)) SProcessing) eqn:Ep.
+    + (* a new metadata block *)
+      cbn [sstate_eqb negb andb]. fs. cbn [sstate_eqb negb andb].
+      apply outcome_ok_call_ok. apply meta_loop_np.
+      * destruct Hih as [Hc [Hpd [Ht Hl]]]. unfold inv, cursor_ok, pad_ok in *. fs.
+        split; [exact Hc|]. split; [intros H; discriminate H|split; assumption].
+      * fs. rewrite U4. exact Hok.
+      * unfold meta_rel. fs. unfold x. fs.
+        rewrite (w32_small offered Hp2). repeat split; try lia. left; reflexivity.
+    + match goal with |- context [if ?c then _ else _] => destruct c eqn:Cm end; [exact Hih|].
+      apply outcome_ok_call_ok. apply meta_loop_np; [exact Hih|rewrite U4; exact Hok|].
+      assert (Hst : sstate_ s = SMetaHead \/ sstate_ s = SMetaBody).
+      { rewrite U1 in Cm. apply andb_false_iff in Cm. destruct Cm as [Cm|Cm]; apply negb_false_iff in Cm; apply sstate_eqb_spec in Cm; auto. }
+      pose proof (Hm Hst) as Hrem.
+      assert (Hne : rem_meta s <> U32MAX) by (intros E; rewrite E in Hrem; vm_compute in Hrem; apply Hrem; reflexivity).
+      (* the guard then forces offered = rem_meta *)
+      destruct (N.eqb_spec (rem_meta s) U32MAX) as [E|_]; [contradiction|]. cbn [negb andb] in Cg.
+      cbn [negb] in Cg. rewrite orb_false_r in Cg. apply negb_false_iff in Cg. apply N.eqb_eq in Cg.
+      unfold meta_rel. rewrite Ur, U1. unfold x. fs. repeat split; try lia. exact Hst.
+  - destruct (sstate_eqb (sstate_ s) SMetaHead || sstate_eqb (sstate_ s) SMetaBody); [exact Hi|].
+    destruct (negb (sstate_eqb (sstate_ s) SProcessing) && negb (offered =? 0)); [exact Hi|].
+    destruct (((quality s =? 0)%Z || (quality s =? 1)%Z) && negb (catable s) && negb (magic s)).
+    + apply outcome_ok_call_ok. apply fast_loop_np; assumption.
+    + apply outcome_ok_call_ok. apply stream_loop_np; assumption.
+Qed.
+
+Theorem take_output_no_panic s n : inv s ->
+  exists bs s', take_output s n = Done (bs, s') /\ inv s'.
+Proof.
+  intros Hi. unfold take_output.
+  remember (if n =? 0 then avail_out_ s else N.min n (avail_out_ s)) as k eqn:Ek.
+  assert (Hk : k <= avail_out_ s) by (subst k; destruct (n =? 0); [lia|apply N.le_min_r]).
+  destruct (N.eqb_spec k 0) as [E0|E0]; [exists [], s; split; [reflexivity|exact Hi]|].
+  destruct Hi as [Hc [Hp [Ht Hl]]].
+  pose proof (view_enough s Hc Ht) as Hv.
+  destruct (N.ltb_spec (lenN (view s)) k) as [Hbad|_]; [lia|].
+  eexists. eexists. split; [reflexivity|]. apply check_flush_inv.
+  unfold inv, cursor_ok, pad_ok in *. fs.
+  destruct (next_out s) as [|off|off] eqn:Eno; cbn [no_incr].
+  - split; [lia|]. split; [|split; assumption]. intros H1 H2 H3. destruct (Hp H1 H2 ltac:(lia)) as [o [Eo _]]. discriminate.
+  - destruct Hc as [Hc1 Hc2]. assert (Hw : w32 (off + k) = off + k) by (apply N.mod_small; lia). rewrite Hw.
+    split; [split; lia|]. split; [|split; assumption].
+    intros H1 H2 H3. destruct (Hp H1 H2 ltac:(lia)) as [o [Eo [R1 R2]]]. inversion Eo; subst o.
+    exists (off + k). split; [reflexivity|]. split; lia.
+  - assert (Hw : w32 (off + k) = off + k) by (apply N.mod_small; lia). rewrite Hw.
+    split; [lia|]. split; [|split; assumption].
+    intros H1 H2 H3. destruct (Hp H1 H2 ltac:(lia)) as [o [Eo _]]. discriminate.
 Qed.
